@@ -114,3 +114,55 @@ claim("C24",
       "cancellation or what terminals observe.",
       "typestate (acquire/release) analysis on the exceptional CFG + "
       "reaching definitions with except-as unbinding")
+
+claim("C04",
+      "stack watermark discipline folded over start values and sizes (every "
+      "carver of r10-relative storage hands out a region between the new and "
+      "the old watermark, aligned, disjoint from its sibling), temporaries "
+      "and their addresses confined to their with block, hash-map cell "
+      "identity (fresh count, per-instance bookkeeping, same key on both "
+      "sides), save_registers parks values in registers. Subprogram locals "
+      "are a recorded finding. Does not decide aliasing through computed "
+      "addresses.",
+      "finite-domain folding of the allocation code + lexical region / "
+      "escape rule + CFG dominance")
+claim("C05",
+      "the generator's side of verifier rules, each necessary for "
+      "acceptance: value-less registers refused on every path, helper-call "
+      "clobber set, null checks after lookups, helper argument registers "
+      "defined, packet accessors only inside strict guards, ownership "
+      "bracket folded on register kinds, aligned stack slots, Structure "
+      "member base register. Does not reproduce the verifier.",
+      "CFG edge-filtered reachability + finite-domain folding of set "
+      "bookkeeping + call-site enumeration with a helper prototype table")
+claim("C06",
+      "in-place add is lowered to one atomic instruction: __iadd__/__isub__ "
+      "folded over all formats x amount kinds return the IAdd marker exactly "
+      "for native 4/8-byte formats; the IAdd path of Memory._set emits "
+      "exactly XADD|size, never the immediate shortcut, no load; descriptor "
+      "routes pass the marker on; negation width. The atomicity of XADD "
+      "itself is an ISA axiom.",
+      "abstract interpretation of the dunders + path facts on Memory._set")
+claim("C07",
+      "byte-swap lowering folded with a recording program object for every "
+      "prefix x letter x width (opcode, immediate, re-extension of signed "
+      "formats after the zero-extending swap); wrapping/stripping of "
+      "prefixes; constant re-packing; strict packet guards; address "
+      "identity of packet variables; no atomic add on prefixed formats. "
+      "Does not decide byte-exact results on packets.",
+      "finite-domain folding with recording stubs + pattern rules")
+claim("C08",
+      "single source of layout (fmt_addr), reservation = fmtsize of the "
+      "recorded descriptor laid out largest first, MRO de-duplication "
+      "(seen-set scope, walk order, test and add), distinct callee-saved "
+      "base registers per map kind, per-CPU stride, scalar/tuple symmetry, "
+      "fixed-point rounding. Does not observe read-back through mmap.",
+      "syntax-tree scope/dominance rules + constant folding")
+claim("C09",
+      "hash-map cell width and key agreement on both sides, defaults after "
+      "`loaded`, Structure member layout folded over offsets x formats, "
+      "bpf() command numbers per wrapper against the uapi table, NULL first "
+      "key for iteration, Else on absent key, fixed-point symmetry, stack "
+      "reservation of Dict areas and computed values. Does not decide "
+      "operation histories.",
+      "finite-domain folding + call-site table check + CFG dominance")
